@@ -525,14 +525,28 @@ func genProbesUDP(r *rand.Rand, dgrams []sim.DecodedDatagram, n int, stage strin
 		add("fresh-genuine-truncated", b.Data[:cut], udpTokOfSeg(b.Meta, aliceID, cut, false), fmt.Sprintf("%d of %d", cut, len(b.Data)))
 	}
 	if stage == "C06" {
-		for _, d := range dgrams {
+		// the copy comes from another HOST, or from the original sender's host and another PORT: both are
+		// "a different source address" (the cache's tag is ip:port)
+		sameHost := func(d sim.DecodedDatagram) {
+			host, _, _ := net.SplitHostPort(d.From)
+			ps = append(ps, probe{Class: "replay-datagram-same-host-other-port", Data: core.Hex(d.Data), Model: replayTok(d, len(d.Data)).String(), From: host})
+		}
+		for i, d := range dgrams {
 			if len(ps) < n {
-				add("replay-datagram-other-source", d.Data, replayTok(d, len(d.Data)), "")
+				if i%2 == 0 {
+					add("replay-datagram-other-source", d.Data, replayTok(d, len(d.Data)), "")
+				} else {
+					sameHost(d)
+				}
 			}
 		}
 		for len(ps) < n {
 			d := pick()
-			add("replay-datagram-other-source", d.Data, replayTok(d, len(d.Data)), "")
+			if r.Intn(2) == 0 {
+				add("replay-datagram-other-source", d.Data, replayTok(d, len(d.Data)), "")
+			} else {
+				sameHost(d)
+			}
 		}
 		return ps
 	}
@@ -567,6 +581,10 @@ func genProbesUDP(r *rand.Rand, dgrams []sim.DecodedDatagram, n int, stage strin
 	add("forged-hint", wireDatagram(r, "mallory", "mallory-secret", "alice"), udpNoKey(100), "")
 	add("name-only-user", wireDatagram(r, "nopass", "", "nopass"), udpNoKey(100), "")
 	add("replay-datagram-other-source", g.Data, replayTok(g, len(g.Data)), "")
+	{
+		host, _, _ := net.SplitHostPort(g.From)
+		ps = append(ps, probe{Class: "replay-datagram-same-host-other-port", Data: core.Hex(g.Data), Model: replayTok(g, len(g.Data)).String(), From: host})
+	}
 	for len(ps) < n {
 		g := pick()
 		switch r.Intn(10) {
@@ -724,7 +742,11 @@ func runProbeCase(c *core.Ctx, k probeCase, prop string) {
 	for _, p := range probes {
 		data := core.UnHex(p.Data)
 		if k.UDP {
-			pc, err := w.Net.ListenPacket(context.Background(), "udp", "", "")
+			laddr := ""
+			if p.From != "" {
+				laddr = p.From + ":0" // the original sender's host, a fresh port
+			}
+			pc, err := w.Net.ListenPacket(context.Background(), "udp", laddr, "")
 			if err != nil {
 				continue
 			}
